@@ -83,6 +83,16 @@ pub fn exec(store: &mut HashMap<String, MarkerTree>, cmd: &str) -> String {
             store.insert(p[1].to_string(), MarkerTree::expression(pep508_rs::MarkerExpression::Version { key: VKEYS[k].clone(), specifier: spec }));
             "ok".into()
         }
+        // `dbg a`: every Debug rendering of a marker (the marker, its `kind()` view, the raw and the graph dumps): they read
+        // the interner too, and must return; the texts may mention node ids, so only their being produced is recorded
+        "dbg" => {
+            let m = &store[p[1]];
+            // (`debug_raw()` of the constants TRUE / FALSE panics in the unchanged code — an index underflow in a debugging aid,
+            //  outside every property; it is not called on them)
+            let raw = if m.is_true() || m.is_false() { 1 } else { format!("{:?}", m.debug_raw()).len() };
+            let n = format!("{:?}", m).len() + format!("{:?}", m.kind()).len() + raw + format!("{:?}", m.debug_graph()).len();
+            format!("dbg {}", (n > 0) as u8)
+        }
         // `dj a b`: is_disjoint both ways, is_true / is_false of the conjunction
         "dj" => {
             let (a, b) = (&store[p[1]], &store[p[2]]);
@@ -614,7 +624,9 @@ pub fn run(out: &mut Out, tier: &str, seed: u64, prop: &str) {
         "C15" => {
             let rounds = if big { 60 } else { 12 };
             let mut w = Worker::spawn("threads");
+            let mut stuck = false;
             for round in 0..rounds {
+                if stuck { break; }
                 let salt = format!("s{}x{}", seed, round);
                 let q: Vec<(String, String)> = vec![
                     ("a".into(), format!("python_full_version >= '3.{}' and os_name == '{salt}a'", 5 + round % 7)),
@@ -629,19 +641,27 @@ pub fn run(out: &mut Out, tier: &str, seed: u64, prop: &str) {
                 for n in ["a", "e", "f", "h", "i", "j", "k", "l", "m", "n", "o", "q", "r", "s"] { script.push(format!("obs {n}")); }
                 for (a, b) in [("e", "f"), ("h", "k"), ("i", "j"), ("a", "a")] { script.push(format!("rel {a} {b}")); }
                 for (a, b) in [("a", "d"), ("e", "g"), ("l", "r"), ("b", "c"), ("h", "j")] { script.push(format!("dj {a} {b}")); }
+                for n in ["a", "b", "d", "g", "h", "k", "s"] { script.push(format!("dbg {n}")); }
                 let hx = hex(&script.join(";"));
                 for n in [2usize, 8, 16] {
                     out.evaluations += 1;
                     // a different salt per thread count, so that the nodes are new each time
                     let hx_n = hx.replace(&hex(&salt), &hex(&format!("{salt}n{n}")));
                     let par = w.call(&format!("run {n} {hx_n}"));
-                    let mut seq_worker = Worker::spawn("threads");
-                    let seq = seq_worker.call(&format!("run 1 {hx_n}"));
                     let input = serde_json::json!({"threads": n, "script": script, "salt": format!("{salt}n{n}")});
                     if par == "deadlock" || par == "dead" || par.starts_with("panic") {
                         out.oracle_fail("C15", &format!("concurrent marker operations: {par}"), input.clone());
+                        if par == "deadlock" {
+                            // the stuck threads still hold the interner lock of that process: nothing more can be learnt from it
+                            // (nor, within the time budget, from further rounds) — start over with a fresh worker and stop
+                            w = Worker::spawn("threads");
+                            stuck = true;
+                            break;
+                        }
                         continue;
                     }
+                    let mut seq_worker = Worker::spawn("threads");
+                    let seq = seq_worker.call(&format!("run 1 {hx_n}"));
                     let (same, digest) = par.split_once(' ').unwrap();
                     if !same.starts_with('1') { out.oracle_fail("C15", "threads running the same operations observed different results", input.clone()); }
                     if same.len() > 1 && !same.ends_with('1') { out.oracle_fail("C15", "the same marker built by different threads (or rebuilt afterwards) is not one marker: != / cmp / hash differ", input.clone()); }
@@ -656,7 +676,7 @@ pub fn run(out: &mut Out, tier: &str, seed: u64, prop: &str) {
             }
             // contention: queries while another thread is inside long single operations (the lock must span each
             // operation and a waiting reader must still get the sequential answer)
-            for round in 0..(if big { 4 } else { 1 }) {
+            for round in 0..(if stuck { 0 } else if big { 4 } else { 1 }) {
                 let salt = format!("c{seed}x{round}");
                 let q: Vec<(String, String)> = vec![
                     ("a".into(), format!("sys_platform == 'linux' and python_version >= '3.{}'", 8 + round)),
